@@ -340,6 +340,35 @@ func c12Bases(c *sup.Ctx) []refdl.Scenario {
 	}
 	pol := []refdl.Policy{deny(q(atom("r", i1, i1))), allow(q(atom("q", i1))), allow(q(atom("z")))}
 	var out []refdl.Scenario
+	// set-valued facts read by several checks, some of which compute with the set: the
+	// checks only read the fact, so their order cannot matter
+	scopes := atom("scopes", rx.SetOf(rx.Str("admin"), rx.Str("read"), rx.Str("write")))
+	vs := rx.Var("s")
+	setChecks := []refdl.Check{
+		chk(qe([]refdl.Atom{atom("scopes", vs)}, binExpr(vs, rx.Contains, rx.Str("admin")))),
+		chk(qe([]refdl.Atom{atom("scopes", vs)}, []rx.Op{{Kind: rx.OpValue, V: vs}, {Kind: rx.OpValue, V: rx.SetOf(rx.Str("read"), rx.Str("write"))}, {Kind: rx.OpBinary, B: rx.Intersection}, {Kind: rx.OpUnary, U: rx.Length}, {Kind: rx.OpValue, V: rx.Int(2)}, {Kind: rx.OpBinary, B: rx.Equal}})),
+		chk(qe([]refdl.Atom{atom("scopes", vs)}, []rx.Op{{Kind: rx.OpValue, V: vs}, {Kind: rx.OpValue, V: rx.SetOf(rx.Str("root"))}, {Kind: rx.OpBinary, B: rx.Union}, {Kind: rx.OpUnary, U: rx.Length}, {Kind: rx.OpValue, V: rx.Int(4)}, {Kind: rx.OpBinary, B: rx.Equal}})),
+	}
+	setPol := []refdl.Policy{allow(qe([]refdl.Atom{atom("scopes", vs)}, binExpr(vs, rx.Contains, rx.Str("read"))))}
+	for factIn := 0; factIn < 2; factIn++ {
+		for checksIn := 0; checksIn < 3; checksIn++ {
+			s := refdl.Scenario{Policies: setPol, Blocks: []refdl.Block{{}}}
+			if factIn == 0 {
+				s.Auth.Facts = []refdl.Atom{scopes}
+			} else {
+				s.Authority.Facts = []refdl.Atom{scopes}
+			}
+			switch checksIn {
+			case 0:
+				s.Auth.Checks = setChecks
+			case 1:
+				s.Authority.Checks = setChecks
+			case 2:
+				s.Blocks[0].Checks = setChecks
+			}
+			out = append(out, s)
+		}
+	}
 	for _, af := range azFacts {
 		for _, uf := range auFacts {
 			for _, ar := range azRules {
